@@ -8,6 +8,7 @@ import (
 	"fmt"
 	"github.com/corestario/kyber/pairing"
 	"github.com/corestario/kyber/pairing/bls12381"
+	dpf "github.com/lidofinance/dc4bc/fsm/state_machines/dkg_proposal_fsm"
 	spf "github.com/lidofinance/dc4bc/fsm/state_machines/signature_proposal_fsm"
 	"os"
 	"path/filepath"
@@ -274,6 +275,38 @@ func runC04(w *World, tier string) (bool, interface{}) {
 		tB = len(membersB)
 	}
 	interleaved := w.Tape.Bool(1, 2, "interleaved")
+	if !interleaved && w.Tape.Bool(1, 2, "fileReadTwiceThenRestart") {
+		// inside a ceremony: the stick still holds the deals file when the next file arrives and
+		// the operator reads it once more (its result leaves the machine again); then the machine
+		// is switched off and on the prescribed way (password, replay of the log) and the
+		// ceremony goes on. Whatever the replay re-creates, nothing signed afterwards may share
+		// a nonce with anything that left the machine before.
+		for i, op := range c.Ops {
+			i, prev := i, op.PreAir
+			op.PreAir = func(o *types.Operation, opJSON []byte) {
+				if string(o.Type) == string(dpf.StateDkgResponsesAwaitConfirmations) && len(fedOps[i]) > 0 && w.Tape.Bool(1, 2, "readTwiceNow?") {
+					last := fedOps[i][len(fedOps[i])-1]
+					var lo types.Operation
+					if json.Unmarshal(last, &lo) == nil && lo.DKGIdentifier == o.DKGIdentifier && string(lo.Type) == string(dpf.StateDkgDealsAwaitConfirmations) {
+						_, _ = w.AirProcess(w.Airs[i], last)
+						w.Stats.Fault("operation-file-handed-over-twice")
+						rounds := []string{roundA}
+						if o.DKGIdentifier != roundA {
+							rounds = append(rounds, o.DKGIdentifier)
+						}
+						if err := w.Airs[i].Restart(rounds); err != nil {
+							w.Fail("C04", "machine-restart-failed", err.Error())
+							return
+						}
+						w.Stats.Fault("machine-restarted-inside-a-ceremony")
+					}
+				}
+				if prev != nil {
+					prev(o, opJSON)
+				}
+			}
+		}
+	}
 	if !interleaved {
 		if !c.RunDKG(roundA, members, 500*n) {
 			return false, "round A did not complete"
